@@ -55,7 +55,7 @@ type c19Entry struct {
 	files map[string]string
 }
 
-const c19Entries = 17
+const c19Entries = 19
 
 func init() {
 	fw.Register(&fw.Property{
@@ -227,6 +227,29 @@ func c19MakeEntry(r *fw.Rng, e int, variant int) c19Entry {
 			call: func(w io.Writer) error {
 				return updown.TopRanking(strings.NewReader(qTxt), strings.NewReader(tTxt), strings.NewReader(refTxt), w, table, "fasta", "fasta", []string{}, size, 0, 0, 0, 0, 0, 0, 0, 0, 0.1, 10000, false, push)
 			}}
+	case 17, 18:
+		// the deprecated sam indels has two output files: a failure on either must be reported.
+		// Which table is written first is up to the scheduler, so each fault is repeated.
+		L := r.Range(30, 80)
+		ref := gen.Genome(r, L)
+		pr := gen.DefaultSamProfile()
+		pr.MaxQueries = 8
+		pr.PIns, pr.PDel = 0.08, 0.08
+		pr.AllowConflict = false
+		sf := gen.MakeSam(r, ref, pr)
+		insSide := e == 17
+		name := "sam indels (deletions output fails)"
+		if insSide {
+			name = "sam indels (insertions output fails)"
+		}
+		return c19Entry{name: name, files: map[string]string{"in.sam": sf.Text},
+			call: func(w io.Writer) error {
+				var other bytes.Buffer
+				if insSide {
+					return sam.Indels(strings.NewReader(sf.Text), w, &other, 1)
+				}
+				return sam.Indels(strings.NewReader(sf.Text), &other, w, 1)
+			}}
 	default: // 15, 16: toPairAlign (binary only): stdout redirected to a file, and directory mode
 		L := r.Range(20, 80)
 		ref := gen.Genome(r, L)
@@ -282,14 +305,19 @@ func runC19(c *fw.Ctx, idx int) fw.Result {
 		W := base.n
 		res.Count("write_calls_fault_free@"+en.name, W)
 		files["fault_free_output.txt"] = base.buf.String()
+		repeats := 1
+		if strings.HasPrefix(en.name, "sam indels") {
+			repeats = 6
+		}
 		for kk := 1; kk <= W; kk++ {
-			for _, sticky := range []bool{false, true} {
+			for rep := 0; rep < 2*repeats; rep++ {
+				sticky := rep%2 == 1
 				fwr := &failWriter{failAt: kk, sticky: sticky}
 				err, hung, verdict, dump := callWithWatchdog(func() error { return en.call(fwr) })
 				res.Evals++
 				res.Count("faults_injected", 1)
 				mode := map[bool]string{false: "one-shot", true: "sticky"}[sticky]
-				res.Sig(fmt.Sprintf("%s|%d|%d|%s", en.name, variant, kk, mode))
+				res.Sig(fmt.Sprintf("%s|%d|%d|%s|%d", en.name, variant, kk, mode, rep/2))
 				argv := append([]string{en.name}, fmt.Sprintf("fail Write call %d of %d (%s)", kk, W, mode))
 				where := "row"
 				if kk == 1 {
@@ -319,7 +347,8 @@ func runC19(c *fw.Ctx, idx int) fw.Result {
 		return res
 	}
 	// ---- binary level: RLIMIT_FSIZE
-	if c.Bin == "" {
+	if c.Bin == "" || len(en.argv) == 0 {
+		res.Evals++
 		return res
 	}
 	d := filepath.Join(c.Tmp, fmt.Sprintf("c19-%d", idx))
